@@ -166,13 +166,13 @@ func feKey(v ssa.Value) string {
 	case *ssa.Alloc:
 		return fmt.Sprintf("alloc:%p", x)
 	case *ssa.Parameter:
-		return "param:" + x.Name()
+		return "param:" + pname(x)
 	case *ssa.FieldAddr:
 		if g, ok := x.X.(*ssa.Global); ok {
 			return "global:" + g.Name() + "." + fieldName(x.X.Type(), x.Field)
 		}
 		if p, ok := x.X.(*ssa.Parameter); ok {
-			return "param:" + p.Name() + "." + fieldName(x.X.Type(), x.Field)
+			return "param:" + pname(p) + "." + fieldName(x.X.Type(), x.Field)
 		}
 		// field of a local struct copy (curve := sm2P256; &curve.a): traced to the global it was copied from
 		if al, ok := x.X.(*ssa.Alloc); ok {
@@ -182,7 +182,7 @@ func feKey(v ssa.Value) string {
 						return "global:" + g.Name() + "." + fieldName(x.X.Type(), x.Field)
 					}
 					if p, ok := st.Val.(*ssa.Parameter); ok {
-						return "param:" + p.Name() + "." + fieldName(x.X.Type(), x.Field)
+						return "param:" + pname(p) + "." + fieldName(x.X.Type(), x.Field)
 					}
 				}
 			}
@@ -345,7 +345,7 @@ func (e *feEnv) valueAt(v ssa.Value, at ssa.Instruction, ops []feOp) (poly, stri
 	case "frombig":
 		name := "big:" + last.big.Name()
 		if p, ok := last.big.(*ssa.Parameter); ok {
-			name = p.Name()
+			name = pname(p)
 		} else if n, ok := e.vars["big:"+last.big.Name()]; ok {
 			name = n
 		}
